@@ -140,5 +140,13 @@ Definition irun (valid : list Z) (h : list ev) : st * ghosts :=
 Definition skip_class (gh : ghost) : bool :=
   existsb (fun p => zmem p (gh_list gh) && zmem p (dkeys (gh_cache gh))) (gh_marked gh).
 
-(* pids of the yields, oldest first *)
-Definition yield_pids (gh : ghost) : list Z := rev (map (fun y => fst (fst y)) (gh_yields gh)).
+(* one yield: (pid, object token, keys of the info dict) *)
+Definition ytriple := (Z * nat * option (list Z))%type.
+Definition ypid (y : ytriple) : Z := fst (fst y).
+
+(* does attrs make as_dict call Process.ppid() (which first runs is_running())? *)
+Definition req_ppid (valid : list Z) (a : attrs_t) : bool :=
+  match a with
+  | None => false
+  | Some l => zmem PPID (match nodup Z.eq_dec l with [] => valid | _ => nodup Z.eq_dec l end)
+  end.
